@@ -37,7 +37,7 @@ func (d *restDriver) do(c *client, j job) restEvent {
 	return ev
 }
 
-var digitSpellings = []string{"6", "8", "9", "10", "", "7", "06", "ten", " 8"}
+var digitSpellings = []string{"6", "8", "9", "10", "6", "8", "9", "10", "", "7", "06", "ten", " 8", "08", "+8", "009", "010", "+10", "8 ", "8.0", "-8", "１０"}
 var algSpellings = []string{"SHA1", "SHA256", "SHA512", "SHA1", "SHA256", "SHA512", "", "sha1", "sha256", "sha512", "Sha256", "SHA-256", "MD5", "SHA384", " SHA256"}
 
 func allAlgWindow(key []byte, c uint64, w int) []Mac {
@@ -505,6 +505,51 @@ func restScenC18(d *restDriver, c *ctx) {
 		jobs = append(jobs, d.randomTyped(c, fmt.Sprintf("C18/conc/%d", i), false))
 	}
 	d.runConcurrent(jobs, 8)
+	// bursts on ONE endpoint at a time, 16 kept-alive clients: state a handler shares between its own invocations
+	// (a parameter struct hoisted out of the handler, a reused response buffer) only shows when two requests to
+	// the same handler with different parameters overlap
+	var burstClients []*client
+	for k := 0; k < 16; k++ {
+		burstClients = append(burstClients, newClient(100+k, true, d.deadline))
+	}
+	for bi, mk := range []func(tag string) job{
+		func(tag string) job { return d.jobHOTPGen(c, tag, false) },
+		func(tag string) job { return d.jobTOTP(c, tag, false, false) },
+		func(tag string) job { return d.jobHOTPVal(c, tag, false) },
+		func(tag string) job { return d.jobTOTP(c, tag, false, true) },
+		func(tag string) job { return d.jobOCRA(c, tag, false, false) },
+	} {
+		var bj []job
+		for i := 0; i < c.n(160, 3000); i++ {
+			bj = append(bj, mk(fmt.Sprintf("C18/burst/%d/%d", bi, i)))
+		}
+		d.runConcurrentKA(bj, burstClients)
+	}
+	for _, cl := range burstClients {
+		cl.hc.CloseIdleConnections()
+	}
+}
+
+// runConcurrentKA: the given clients keep their connections alive (no connection set-up between two requests; the
+// same 16 connections serve all bursts: the server admits at most 50 connections per address)
+func (d *restDriver) runConcurrentKA(jobs []job, clients []*client) {
+	var wg sync.WaitGroup
+	ch := make(chan job, len(jobs))
+	for _, j := range jobs {
+		ch <- j
+	}
+	close(ch)
+	for _, cl := range clients {
+		wg.Add(1)
+		cl := cl
+		go func() {
+			defer wg.Done()
+			for j := range ch {
+				d.do(cl, j)
+			}
+		}()
+	}
+	wg.Wait()
 }
 
 func (d *restDriver) runConcurrent(jobs []job, clients int) {
